@@ -158,3 +158,34 @@ FLOWS = [
     Flow("k_flow_writer_write_raw", A, "ASN1Writer.write_raw", props=("C07",)),
     Flow("k_flow_writer_get_data", A, "ASN1Writer.get_data", props=("C07",)),
 ]
+
+# ---- part "cms" (_pkcs7.py, _blob.py): world coq/Flow/World_cms.v, ties coq/Proofs/Flow_cms_{unpack,pack,sd}.v ----------------
+_PU = ("C06", "C05")      # decoders: on the unprotect path
+_PP = ("C06",)            # encoders
+FLOWS += [
+    Flow("k_flow_AlgorithmIdentifier_unpack", "_pkcs7.py", "AlgorithmIdentifier.unpack", props=_PU),
+    Flow("k_flow_OtherKeyAttribute_unpack", "_pkcs7.py", "OtherKeyAttribute.unpack", props=_PU),
+    Flow("k_flow_ContentInfo_unpack", "_pkcs7.py", "ContentInfo.unpack", props=_PU),
+    Flow("k_flow_KEKIdentifier_unpack", "_pkcs7.py", "KEKIdentifier.unpack", props=_PU),
+    Flow("k_flow_RecipientInfo_unpack", "_pkcs7.py", "RecipientInfo.unpack", props=_PU),
+    Flow("k_flow_ProtectionDescriptor_unpack", "_blob.py", "ProtectionDescriptor.unpack", props=_PU),
+    Flow("k_flow_DPAPINGBlob_unpack", "_blob.py", "DPAPINGBlob.unpack", props=_PU),
+    Flow("k_flow_AlgorithmIdentifier_pack", "_pkcs7.py", "AlgorithmIdentifier.pack", props=_PP),
+    Flow("k_flow_OtherKeyAttribute_pack", "_pkcs7.py", "OtherKeyAttribute.pack", props=_PP),
+    Flow("k_flow_ContentInfo_pack", "_pkcs7.py", "ContentInfo.pack", props=_PP),
+    Flow("k_flow_RecipientInfo_pack", "_pkcs7.py", "RecipientInfo.pack", props=_PP),
+    Flow("k_flow_ProtectionDescriptor_pack", "_blob.py", "ProtectionDescriptor.pack", props=_PP),
+    Flow("k_flow_ProtectionDescriptor_parse", "_blob.py", "ProtectionDescriptor.parse", props=_PP),
+    Flow("k_flow_ProtectionDescriptor_get_target_sd", "_blob.py", "ProtectionDescriptor.get_target_sd", props=("C05",)),
+    Flow("k_flow_SIDDescriptor_get_target_sd", "_blob.py", "SIDDescriptor.get_target_sd", props=("C05",)),
+    # regenerated but NOT tied: a callee advances / appends to an ARGUMENT (reader, writer), which Prelude/PyAst.v cannot express
+    # (w_call / w_meth only give the receiver back); listed without props so that no property depends on them
+    Flow("k_flow_EncryptedContentInfo_unpack", "_pkcs7.py", "EncryptedContentInfo.unpack"),
+    Flow("k_flow_KEKRecipientInfo_unpack", "_pkcs7.py", "KEKRecipientInfo.unpack"),
+    Flow("k_flow_EnvelopedData_unpack", "_pkcs7.py", "EnvelopedData.unpack"),
+    Flow("k_flow_EncryptedContentInfo_pack", "_pkcs7.py", "EncryptedContentInfo.pack"),
+    Flow("k_flow_KEKIdentifier_pack", "_pkcs7.py", "KEKIdentifier.pack"),
+    Flow("k_flow_KEKRecipientInfo_pack", "_pkcs7.py", "KEKRecipientInfo.pack"),
+    Flow("k_flow_EnvelopedData_pack", "_pkcs7.py", "EnvelopedData.pack"),
+    Flow("k_flow_DPAPINGBlob_pack", "_blob.py", "DPAPINGBlob.pack"),
+]
